@@ -139,9 +139,22 @@ class Prop(PropBase):
                 acc.append(s.text(residual=()))
         out.append(('ways', '\n'.join(scn_sel) + '\n'))
         out.append(('ways_epoll', '\n'.join(scn_ep) + '\n'))
+        # both sockets readable in the same wake-up (bursts on distinct MSOP / DIFOP ports queued before start, and empty datagrams):
+        # every datagram reaches the decoder exactly once, intact, in the order of its socket - on the select and the epoll receiver
+        from props import C10 as C10mod
+        self.c10 = C10mod.Prop(); self.c10.setup(self.L, self.G, self.C)
+        for bn, txt in self.c10.generate(rng, 'quick'):
+            if bn in ('sockburst', 'sockpaced'):
+                out.append((bn, txt))
+                out.append((bn + '_epoll', txt))
         return out
 
     def judge(self, bname, inp, impl_path, model_path, impl_log, violations, broken, stats):
+        if bname.startswith('sock') or (bname == 'replay' and 'S c10_sock' in open(inp).read()):
+            if not hasattr(self, 'c10'):
+                from props import C10 as C10mod
+                self.c10 = C10mod.Prop(); self.c10.setup(self.L, self.G, self.C)
+            return self.c10.judge_sockburst(inp, impl_path, impl_log, violations, stats)
         super().judge(bname, inp, impl_path, model_path, impl_log, violations, broken, stats)
         if not bname.startswith('ways'):
             return
